@@ -500,3 +500,391 @@ fn c13_decode_ping_val() {
     }
     kani::cover!(true, "end of harness reached");
 }
+
+fn id_eq(a: NodeId, b: &[u8; 20]) -> bool {
+    let got: [u8; 20] = a.into();
+    let mut k = 0;
+    let mut same = true;
+    while k < 20 {
+        if got[k] != b[k] {
+            same = false;
+        }
+        k += 1;
+    }
+    same
+}
+
+/// find_node: keys reordered at both levels, keys unknown to BEP5/32 present at both levels
+/// (`v`, `ro` at top level; `noseed`, `scrape` among the arguments): decodes to the same message.
+#[kani::proof]
+#[kani::unwind(24)]
+#[kani::stub(alloc::fmt::format, crate::verif::stub_fmt_format)]
+fn c13_decode_find_node_reordered_unknown_keys() {
+    let id: [u8; 20] = kani::any();
+    let target: [u8; 20] = kani::any();
+    let t: [u8; 4] = kani::any();
+    let junk: [u8; 4] = kani::any();
+    let n: i64 = kani::any();
+    let v = Val::Dict(vec![
+        (b"y", Val::Bytes(b"q")),
+        (b"v", Val::Bytes(&junk)),
+        (b"t", Val::Bytes(&t)),
+        (b"ro", Val::Int(n)),
+        (b"q", Val::Bytes(b"find_node")),
+        (
+            b"a",
+            Val::Dict(vec![
+                (b"want", Val::List(vec![Val::Bytes(b"n6"), Val::Bytes(b"n4")])),
+                (b"target", Val::Bytes(&target)),
+                (b"scrape", Val::Int(n)),
+                (b"noseed", Val::Int(1)),
+                (b"id", Val::Bytes(&id)),
+            ]),
+        ),
+    ]);
+    let m = decode_val(v);
+    assert!(m.is_ok(), "C13: find_node with reordered / unknown keys is not decoded");
+    let m = m.unwrap();
+    assert!(m.transaction_id.len() == 4 && m.transaction_id[3] == t[3], "C13: transaction id altered");
+    match m.body {
+        MessageBody::Request(Request::FindNode(f)) => {
+            assert!(id_eq(f.id, &id) && id_eq(f.target, &target), "C13: find_node ids altered");
+            assert!(f.want == Some(Want::Both), "C13: want list decoded wrongly");
+        }
+        _ => assert!(false, "C13: find_node decoded as a different message"),
+    }
+    kani::cover!(true, "end of harness reached");
+}
+
+/// get_peers / announce_peer: the variant chosen is the one BEP5 prescribes for the key set, with
+/// explicit and implied port.
+#[kani::proof]
+#[kani::unwind(24)]
+#[kani::stub(alloc::fmt::format, crate::verif::stub_fmt_format)]
+fn c13_decode_get_peers_and_announce() {
+    let id: [u8; 20] = kani::any();
+    let ih: [u8; 20] = kani::any();
+    let t: [u8; 2] = kani::any();
+    let tok: [u8; 8] = kani::any();
+    let port: u16 = kani::any();
+    let implied: u8 = kani::any();
+    let which: bool = kani::any();
+    if which {
+        let v = Val::Dict(vec![
+            (b"a", Val::Dict(vec![(b"id", Val::Bytes(&id)), (b"info_hash", Val::Bytes(&ih))])),
+            (b"q", Val::Bytes(b"get_peers")),
+            (b"t", Val::Bytes(&t)),
+            (b"y", Val::Bytes(b"q")),
+        ]);
+        match decode_val(v) {
+            Ok(Message { body: MessageBody::Request(Request::GetPeers(g)), .. }) => {
+                assert!(id_eq(g.id, &id) && id_eq(g.info_hash, &ih) && g.want.is_none(), "C13: get_peers fields altered");
+            }
+            _ => assert!(false, "C13: a well-formed get_peers is not decoded as get_peers"),
+        }
+    } else {
+        let v = Val::Dict(vec![
+            (
+                b"a",
+                Val::Dict(vec![
+                    (b"id", Val::Bytes(&id)),
+                    (b"implied_port", Val::Int(implied as i64)),
+                    (b"info_hash", Val::Bytes(&ih)),
+                    (b"port", Val::Int(port as i64)),
+                    (b"token", Val::Bytes(&tok)),
+                ]),
+            ),
+            (b"q", Val::Bytes(b"announce_peer")),
+            (b"t", Val::Bytes(&t)),
+            (b"y", Val::Bytes(b"q")),
+        ]);
+        match decode_val(v) {
+            Ok(Message { body: MessageBody::Request(Request::AnnouncePeer(a)), .. }) => {
+                assert!(id_eq(a.id, &id) && id_eq(a.info_hash, &ih), "C13: announce_peer ids altered");
+                assert!(a.token.len() == 8 && a.token[0] == tok[0] && a.token[7] == tok[7], "C13: token altered");
+                assert!(a.port == if implied > 0 { None } else { Some(port) }, "C13: port / implied_port decoded wrongly");
+            }
+            _ => assert!(false, "C13: a well-formed announce_peer is not decoded as announce_peer"),
+        }
+    }
+    kani::cover!(true, "end of harness reached");
+}
+
+/// Rejections: arguments that do not fit the named method, ids that are not 20 bytes, missing parts.
+#[kani::proof]
+#[kani::unwind(24)]
+#[kani::stub(alloc::fmt::format, crate::verif::stub_fmt_format)]
+fn c13_decode_rejections() {
+    let id: [u8; 21] = kani::any();
+    let t: [u8; 2] = kani::any();
+    let case: u8 = kani::any();
+    kani::assume(case < 6);
+    let args_ping = Val::Dict(vec![(b"id", Val::Bytes(&id[..20]))]);
+    let v = match case {
+        // find_node without target
+        0 => Val::Dict(vec![(b"a", args_ping), (b"q", Val::Bytes(b"find_node")), (b"t", Val::Bytes(&t)), (b"y", Val::Bytes(b"q"))]),
+        // get_peers without info_hash
+        1 => Val::Dict(vec![(b"a", args_ping), (b"q", Val::Bytes(b"get_peers")), (b"t", Val::Bytes(&t)), (b"y", Val::Bytes(b"q"))]),
+        // 19-byte id
+        2 => Val::Dict(vec![(b"a", Val::Dict(vec![(b"id", Val::Bytes(&id[..19]))])), (b"q", Val::Bytes(b"ping")), (b"t", Val::Bytes(&t)), (b"y", Val::Bytes(b"q"))]),
+        // 21-byte id
+        3 => Val::Dict(vec![(b"a", Val::Dict(vec![(b"id", Val::Bytes(&id[..21]))])), (b"q", Val::Bytes(b"ping")), (b"t", Val::Bytes(&t)), (b"y", Val::Bytes(b"q"))]),
+        // query without arguments
+        4 => Val::Dict(vec![(b"q", Val::Bytes(b"ping")), (b"t", Val::Bytes(&t)), (b"y", Val::Bytes(b"q"))]),
+        // response without a body
+        _ => Val::Dict(vec![(b"t", Val::Bytes(&t)), (b"y", Val::Bytes(b"r"))]),
+    };
+    assert!(decode_val(v).is_err(), "C13: a malformed message is accepted");
+    kani::cover!(case == 5, "missing response body case");
+}
+
+/// Responses: id/token/values/nodes/nodes6 decoded; a nodes blob that is not a multiple of 26 and
+/// a 7-byte peer are refused.
+#[kani::proof]
+#[kani::unwind(40)]
+#[kani::stub(alloc::fmt::format, crate::verif::stub_fmt_format)]
+fn c13_decode_response() {
+    let id: [u8; 20] = kani::any();
+    let t: [u8; 2] = kani::any();
+    let tok: [u8; 4] = kani::any();
+    let nodes: [u8; 27] = kani::any();
+    let nodes6: [u8; 38] = kani::any();
+    let peer: [u8; 7] = kani::any();
+    let case: u8 = kani::any();
+    kani::assume(case < 3);
+    let (nlen, plen) = match case {
+        0 => (26, 6),
+        1 => (27, 6),
+        _ => (26, 7),
+    };
+    let v = Val::Dict(vec![
+        (
+            b"r",
+            Val::Dict(vec![
+                (b"id", Val::Bytes(&id)),
+                (b"nodes", Val::Bytes(&nodes[..nlen])),
+                (b"nodes6", Val::Bytes(&nodes6)),
+                (b"token", Val::Bytes(&tok)),
+                (b"values", Val::List(vec![Val::Bytes(&peer[..plen])])),
+            ]),
+        ),
+        (b"t", Val::Bytes(&t)),
+        (b"y", Val::Bytes(b"r")),
+    ]);
+    let m = decode_val(v);
+    if case == 0 {
+        match m {
+            Ok(Message { body: MessageBody::Response(r), .. }) => {
+                assert!(id_eq(r.id, &id), "C13: response id altered");
+                assert!(r.nodes_v4.len() == 1 && r.nodes_v6.len() == 1 && r.values.len() == 1, "C13: response lists decoded with wrong counts");
+                assert!(r.token.as_deref() == Some(&tok[..]), "C13: response token altered");
+                assert!(r.values[0].port() == ((peer[4] as u16) << 8 | peer[5] as u16), "C13: peer port is not big-endian");
+                assert!(r.nodes_v6[0].addr.is_ipv6() && r.nodes_v4[0].addr.is_ipv4(), "C13: node families mixed up");
+            }
+            _ => assert!(false, "C13: a well-formed response is not decoded"),
+        }
+    } else {
+        assert!(m.is_err(), "C13: a response with a malformed compact list is accepted");
+    }
+    kani::cover!(case == 2, "malformed peer case");
+}
+
+/// Errors: [code, text]; a third element is refused.
+#[kani::proof]
+#[kani::unwind(24)]
+#[kani::stub(alloc::fmt::format, crate::verif::stub_fmt_format)]
+fn c13_decode_error() {
+    let t: [u8; 2] = kani::any();
+    let code: u8 = kani::any();
+    let extra: bool = kani::any();
+    let mut list = vec![Val::Int(code as i64), Val::Bytes(b"abc")];
+    if extra {
+        list.push(Val::Int(0));
+    }
+    let v = Val::Dict(vec![(b"e", Val::List(list)), (b"t", Val::Bytes(&t)), (b"y", Val::Bytes(b"e"))]);
+    match decode_val(v) {
+        Ok(Message { body: MessageBody::Error(e), .. }) => {
+            assert!(!extra, "C13: an error list with three elements is accepted");
+            assert!(e.code == code && e.message.as_bytes() == b"abc", "C13: error fields altered");
+        }
+        Ok(_) => assert!(false, "C13: an error message decoded as something else"),
+        Err(_) => assert!(extra, "C13: a well-formed error message is refused"),
+    }
+    kani::cover!(extra, "over-long error list case");
+}
+
+/// NATIVE ONLY (role native-validation in lib/registry.py; never given to the solver, F24):
+/// pseudo-random get_peers replies through the real encoder. Validates the size formula
+/// `reply_len` and, for replies within the code's own limits, checks the 1500-byte bound directly.
+#[kani::proof]
+fn c17_formula_matches_encoder_native() {
+    let v6: bool = kani::any();
+    let nv: usize = (kani::any::<u8>() % 121) as usize;
+    let n4: usize = (kani::any::<u8>() % 9) as usize;
+    let n6: usize = (kani::any::<u8>() % 9) as usize;
+    let tl: usize = (kani::any::<u8>() % 33) as usize;
+    let has_token: bool = kani::any();
+    let mut values = Vec::new();
+    for _ in 0..nv {
+        values.push(if v6 { any_v6() } else { any_v4() });
+    }
+    let mut nodes_v4 = Vec::new();
+    for _ in 0..n4 {
+        nodes_v4.push(NodeHandle::new(any_id(), any_v4()));
+    }
+    let mut nodes_v6 = Vec::new();
+    for _ in 0..n6 {
+        nodes_v6.push(NodeHandle::new(any_id(), any_v6()));
+    }
+    let mut t = Vec::new();
+    for _ in 0..tl {
+        t.push(kani::any::<u8>());
+    }
+    let tok: [u8; 20] = kani::any();
+    let m = Message {
+        transaction_id: t,
+        body: MessageBody::Response(Response {
+            id: any_id(),
+            values,
+            nodes_v4,
+            nodes_v6,
+            token: if has_token { Some(tok.to_vec()) } else { None },
+        }),
+    };
+    let len = m.encode().expect("encodes").len();
+    let (a, b) = if v6 { (0, nv) } else { (nv, 0) };
+    assert!(len == reply_len(a, b, n4, n6, if has_token { Some(20) } else { None }, tl), "model: size formula disagrees with the real encoder");
+    let cap = if v6 { crate::handler::MAX_VALUES_V6 } else { crate::handler::MAX_VALUES_V4 };
+    if nv <= cap {
+        assert!(len <= 1500, "C17: a get_peers reply within the code's own limits exceeds 1500 bytes");
+    }
+}
+
+// ---------------------------------------------------------------------------------------------
+// NATIVE ONLY (role native-validation): the whole-text codec, which the solver cannot reach
+// (bencode text parser and emitter, DESIGN.md F8/F14/F24/F26). Pseudo-random messages of every kind:
+// real encoder == reference encoder, decode(encode(m)) == m, and decoding is insensitive to key
+// order and to keys unknown to BEP5/32 at both dictionary levels.
+// ---------------------------------------------------------------------------------------------
+
+fn nat_bytes(n: usize) -> Vec<u8> {
+    let mut v = Vec::new();
+    for _ in 0..n {
+        v.push(kani::any::<u8>());
+    }
+    v
+}
+
+fn nat_message() -> Message {
+    let t = nat_bytes((kani::any::<u8>() % 33) as usize);
+    let want = match kani::any::<u8>() % 4 {
+        0 => None,
+        1 => Some(Want::V4),
+        2 => Some(Want::V6),
+        _ => Some(Want::Both),
+    };
+    let body = match kani::any::<u8>() % 7 {
+        0 => MessageBody::Request(Request::Ping(PingRequest { id: any_id() })),
+        1 => MessageBody::Request(Request::FindNode(FindNodeRequest { id: any_id(), target: any_id(), want })),
+        2 => MessageBody::Request(Request::GetPeers(GetPeersRequest { id: any_id(), info_hash: any_id(), want })),
+        3 => MessageBody::Request(Request::AnnouncePeer(AnnouncePeerRequest {
+            id: any_id(),
+            info_hash: any_id(),
+            port: if kani::any::<bool>() { Some(kani::any::<u16>()) } else { None },
+            token: nat_bytes((kani::any::<u8>() % 24) as usize),
+        })),
+        4 | 5 => {
+            let mut values = Vec::new();
+            for _ in 0..(kani::any::<u8>() % 6) {
+                values.push(if kani::any::<bool>() { any_v4() } else { any_v6() });
+            }
+            let mut nodes_v4 = Vec::new();
+            for _ in 0..(kani::any::<u8>() % 9) {
+                nodes_v4.push(NodeHandle::new(any_id(), any_v4()));
+            }
+            let mut nodes_v6 = Vec::new();
+            for _ in 0..(kani::any::<u8>() % 9) {
+                nodes_v6.push(NodeHandle::new(any_id(), any_v6()));
+            }
+            MessageBody::Response(Response {
+                id: any_id(),
+                values,
+                nodes_v4,
+                nodes_v6,
+                token: if kani::any::<bool>() { Some(nat_bytes((kani::any::<u8>() % 24) as usize)) } else { None },
+            })
+        }
+        _ => MessageBody::Error(Error { code: kani::any::<u8>(), message: String::from(if kani::any::<bool>() { "" } else { "A Generic Error Ocurred" }) }),
+    };
+    Message { transaction_id: t, body }
+}
+
+/// dictionary with `extra` unknown keys mixed in and the entries rotated by `rot` (not sorted)
+fn nat_dict(mut entries: Vec<(Vec<u8>, Vec<u8>)>, rot: usize) -> Vec<u8> {
+    entries.push((b"v".to_vec(), b"4:UT\x01\x02".to_vec()));
+    entries.push((b"ip".to_vec(), b"6:\x01\x02\x03\x04\x05\x06".to_vec()));
+    entries.push((b"ro".to_vec(), b"i1e".to_vec()));
+    entries.push((b"noseed".to_vec(), b"i0e".to_vec()));
+    entries.push((b"scrape".to_vec(), b"li1ei2ee".to_vec()));
+    entries.push((b"name".to_vec(), b"d1:x1:ye".to_vec()));
+    let n = entries.len();
+    entries.rotate_left(rot % n);
+    let mut out = vec![b'd'];
+    for (k, v) in entries {
+        out.extend(format!("{}:", k.len()).into_bytes());
+        out.extend(k);
+        out.extend(v);
+    }
+    out.push(b'e');
+    out
+}
+
+fn nat_bstr(b: &[u8]) -> Vec<u8> {
+    let mut out = format!("{}:", b.len()).into_bytes();
+    out.extend(b);
+    out
+}
+
+#[kani::proof]
+fn c13_codec_roundtrip_native() {
+    let m = nat_message();
+    let enc = m.encode().expect("model: a well-formed message failed to encode");
+    if enc.len() <= 400 {
+        let r = ref_encode(&m);
+        assert!(enc.len() == r.len && enc[..] == r.buf[..r.len], "C13: encoding differs from the canonical bencoding");
+    }
+    match Message::decode(&enc) {
+        Ok(d) => assert!(d == m, "C13: decoding the canonical encoding gives a different message"),
+        Err(_) => panic!("C13: the canonical encoding of a well-formed message is not decoded"),
+    }
+    // reordered keys + unknown keys at both levels (queries: `a`; responses: `r`)
+    let rot1 = kani::any::<u8>() as usize;
+    let rot2 = kani::any::<u8>() as usize;
+    let t = nat_bstr(&m.transaction_id);
+    let text = match &m.body {
+        MessageBody::Request(Request::FindNode(f)) => {
+            let mut a = vec![(b"id".to_vec(), nat_bstr(f.id.as_ref())), (b"target".to_vec(), nat_bstr(f.target.as_ref()))];
+            if let Some(w) = f.want {
+                a.push((b"want".to_vec(), match w { Want::V4 => b"l2:n4e".to_vec(), Want::V6 => b"l2:n6e".to_vec(), Want::Both => b"l2:n62:n4e".to_vec() }));
+            }
+            Some(nat_dict(vec![(b"a".to_vec(), nat_dict(a, rot2)), (b"q".to_vec(), b"9:find_node".to_vec()), (b"t".to_vec(), t), (b"y".to_vec(), b"1:q".to_vec())], rot1))
+        }
+        MessageBody::Request(Request::Ping(p)) => {
+            Some(nat_dict(vec![(b"a".to_vec(), nat_dict(vec![(b"id".to_vec(), nat_bstr(p.id.as_ref()))], rot2)), (b"q".to_vec(), b"4:ping".to_vec()), (b"t".to_vec(), t), (b"y".to_vec(), b"1:q".to_vec())], rot1))
+        }
+        MessageBody::Response(r) if r.values.is_empty() && r.nodes_v4.is_empty() && r.nodes_v6.is_empty() => {
+            let mut e = vec![(b"id".to_vec(), nat_bstr(r.id.as_ref()))];
+            if let Some(tok) = &r.token {
+                e.push((b"token".to_vec(), nat_bstr(tok)));
+            }
+            Some(nat_dict(vec![(b"r".to_vec(), nat_dict(e, rot2)), (b"t".to_vec(), t), (b"y".to_vec(), b"1:r".to_vec())], rot1))
+        }
+        _ => None,
+    };
+    if let Some(text) = text {
+        match Message::decode(&text) {
+            Ok(d) => assert!(d == m, "C13: reordered / unknown keys change the decoded message"),
+            Err(_) => panic!("C13: a message with reordered / unknown keys is not decoded"),
+        }
+    }
+}
